@@ -653,6 +653,7 @@ class C09(Property):
                 for key in keys:
                     yield dict({'op': 'unique', 'kind': kind, 'xs': xs, 'key': key}, **tw)
                     yield dict({'op': 'redundant', 'kind': kind, 'xs': xs, 'key': key, 'groups': False}, **tw)
+                    yield {'op': 'redundant', 'kind': kind, 'xs': xs, 'key': key, 'groups': False, 'dflt': True}
                     yield dict({'op': 'redundant', 'kind': kind, 'xs': xs, 'key': key, 'groups': True}, **tw)
                     yield dict({'op': 'bucketize', 'kind': kind, 'xs': xs, 'key': key, 'vt': 'id',
                                 'kf': (None, 0, 1, 2)[i % 4]}, **tw)
@@ -914,7 +915,9 @@ class C09(Property):
             if op == 'unique':
                 return {'op': op, 'kind': kind, 'xs': xs, 'key': key}
             if op == 'redundant':
-                return {'op': op, 'kind': kind, 'xs': xs, 'key': key, 'groups': rng.random() < 0.5}
+                g = rng.random() < 0.5
+                return dict({'op': op, 'kind': kind, 'xs': xs, 'key': key, 'groups': g},
+                            **({'dflt': True} if not g and rng.random() < 0.3 else {}))
             if op == 'partition':
                 return dict({'op': op, 'kind': kind, 'xs': xs, 'key': key},
                             **({'dflt': True} if key == 'bool' and rng.random() < 0.5 else {}))
@@ -1202,7 +1205,12 @@ class C09(Property):
             return encl(r)
         if op == 'redundant':
             k = key_callable(case['key'])
-            r = iu.redundant(src, key=k, groups=case['groups'])
+            if dflt and k is None and not case['groups']:
+                r = iu.redundant(src)            # both optional arguments left at their defaults
+            elif dflt and not case['groups']:
+                r = iu.redundant(src, k)         # key positional, groups at its default
+            else:
+                r = iu.redundant(src, key=k, groups=case['groups'])
             return [encl(g) for g in r] if case['groups'] else encl(r)
         if op == 'bucketize':
             key = case['key']
